@@ -245,6 +245,124 @@ func verifC10GenConf(r *verifutil.Rand, rpi bool) map[string]any {
 }
 
 // deterministic rendering: sort keys (Go map order would make the case depend on more than the seed)
+// correlated scenarios: each exercises one check matrix of Validate with all its inputs varied together
+func verifC10Scenario(r *verifutil.Rand) map[string]any {
+	top := map[string]any{}
+	pick := func(xs ...any) any { return xs[r.Intn(len(xs))] }
+	maybe := func(m map[string]any, k string, xs ...any) {
+		if r.Chance(2, 3) {
+			m[k] = pick(xs...)
+		}
+	}
+	recPaths := []any{"./r/%path/%Y-%m-%d_%H-%M-%S-%f", "%path/%s", "%path/%s-%f", "%path/%Y-%m-%d_%H-%M-%S", "%path/%Y-%m-%d_%H-%M-%f", "%f/%s", "%path/%Y%m%d%H%M%S%f"}
+	switch r.Intn(6) {
+	case 0: // recording
+		maybe(top, "playback", true, true, false)
+		maybe(top, "record", true, false)
+		maybe(top, "recordPath", recPaths...)
+		maybe(top, "recordSegmentDuration", "1h", "24h", "25h", "1s")
+		maybe(top, "recordDeleteAfter", "0s", "1s", "1d", "2h")
+		pd := map[string]any{}
+		maybe(pd, "recordPath", recPaths...)
+		maybe(pd, "recordDeleteAfter", "0s", "30m", "1d")
+		if len(pd) > 0 && r.Bool() {
+			top["pathDefaults"] = pd
+		}
+		paths := map[string]any{}
+		for j := 0; j < 1+r.Intn(2); j++ {
+			pm := map[string]any{}
+			maybe(pm, "record", true, false)
+			maybe(pm, "recordPath", recPaths...)
+			maybe(pm, "recordSegmentDuration", "1h", "24h", "24h0m0.000000001s", "1s", "30m")
+			maybe(pm, "recordDeleteAfter", "0s", "1s", "24h", "1d", "59m59s", "1h", "30m")
+			paths[r.Pick("cam", "x1", "all_others")] = pm
+		}
+		top["paths"] = paths
+	case 1: // RTSP address matrix
+		maybe(top, "rtspEncryption", "no", "optional", "strict")
+		maybe(top, "encryption", "no", "optional", "strict")
+		maybe(top, "rtspTransports", []any{"tcp"}, []any{"udp"}, []any{"multicast"}, []any{"udp", "multicast"}, []any{})
+		maybe(top, "protocols", []any{"tcp"}, []any{"udp"}, []any{"multicast", "tcp"})
+		blank := []string{"rtspAddress", "rtspsAddress", "rtpAddress", "rtcpAddress", "multicastIPRange", "srtpAddress", "srtcpAddress"}
+		zero := []string{"multicastRTPPort", "multicastRTCPPort", "multicastSRTPPort", "multicastSRTCPPort"}
+		for j := 0; j < r.Intn(3); j++ {
+			if r.Bool() {
+				top[blank[r.Intn(len(blank))]] = ""
+			} else {
+				top[zero[r.Intn(len(zero))]] = 0
+			}
+		}
+		maybe(top, "rtsp", true, true, false)
+		maybe(top, "rtspDisable", true, false)
+		maybe(top, "rtspAuthMethods", []any{"basic"}, []any{"digest"}, []any{}, []any{"basic", "digest"})
+		maybe(top, "authMethods", []any{"digest"}, []any{})
+	case 2: // authentication
+		maybe(top, "authMethod", "internal", "http", "jwt")
+		maybe(top, "externalAuthenticationURL", "http://x/a", "ftp://x", "")
+		maybe(top, "authHTTPAddress", "", "http://h/p", "https://h", "htp://h")
+		maybe(top, "authJWTJWKS", "", "http://j", "https://j", "file:///x")
+		maybe(top, "authJWTClaimKey", "", "k")
+		maybe(top, "rtspAuthMethods", []any{"basic"}, []any{"digest"}, []any{"basic", "digest"})
+		maybe(top, "authInternalUsers", verifC10Global[verifC10Relevant(verifC10Global, "authInternalUsers")].vals...)
+		if r.Chance(1, 3) {
+			pm := map[string]any{}
+			maybe(pm, "publishUser", "u", "", verifC10Sha, "any")
+			maybe(pm, "publishPass", "p", "", verifC10Sha)
+			maybe(pm, "readUser", "u", "")
+			maybe(pm, "readIPs", []any{"10.0.0.0/8"}, []any{})
+			if r.Bool() {
+				top["paths"] = map[string]any{r.Pick("cam", "all", "~^x"): pm}
+			} else {
+				top["pathDefaults"] = pm
+			}
+		}
+	case 3: // WebRTC reachability
+		maybe(top, "webrtc", true, true, false)
+		maybe(top, "webrtcLocalUDPAddress", "", ":8189")
+		maybe(top, "webrtcLocalTCPAddress", "", ":8189")
+		maybe(top, "webrtcICEUDPMuxAddress", "", ":8189")
+		maybe(top, "webrtcIPsFromInterfaces", true, false)
+		maybe(top, "webrtcAdditionalHosts", []any{}, []any{"h"})
+		maybe(top, "webrtcICEHostNAT1To1IPs", []any{}, []any{"1.2.3.4"})
+		maybe(top, "webrtcICEServers2", []any{}, []any{map[string]any{"url": "stun:x:3478"}}, []any{map[string]any{"url": "http:x"}})
+		maybe(top, "webrtcICEServers", []any{"stun:a:3478"}, []any{"turn:u:p:host:3478"}, []any{"x"}, []any{})
+	case 4: // alwaysAvailable
+		pm := map[string]any{"alwaysAvailable": pick(true, true, false)}
+		maybe(pm, "alwaysAvailableTracks", []any{}, []any{map[string]any{"codec": "H264"}})
+		maybe(pm, "alwaysAvailableFile", "", "/nonexistent.mp4", verifC10Special("@mp4"), verifC10Special("@notmp4"))
+		maybe(pm, "useAbsoluteTimestamp", true, false)
+		maybe(pm, "sourceOnDemand", true, false)
+		maybe(pm, "source", "publisher", "rtsp://h/p")
+		maybe(pm, "runOnDemand", "", "cmd")
+		maybe(pm, "runOnUnDemand", "", "cmd")
+		top["paths"] = map[string]any{r.Pick("cam", "all_others", "~^x", "a/b"): pm}
+	default: // regular expression / catch-all paths
+		pm := map[string]any{}
+		rare := func(m map[string]any, k string, xs ...any) {
+			if r.Chance(1, 6) {
+				m[k] = pick(xs...)
+			}
+		}
+		maybe(pm, "source", "publisher", "redirect", "rtsp://h/p", "rtmp://h/a", "udp://h:1234", "rpiCamera", "srt://h:1", "whep://h/p")
+		if pm["source"] == "redirect" {
+			maybe(pm, "sourceRedirect", "", "/other", "rtsp://h/x")
+		} else {
+			rare(pm, "sourceRedirect", "/other")
+		}
+		maybe(pm, "sourceOnDemand", true, false)
+		rare(pm, "runOnInit", "", "cmd")
+		rare(pm, "runOnDemand", "", "cmd")
+		rare(pm, "runOnUnDemand", "", "cmd")
+		rare(pm, "srtPublishPassphrase", "", "0123456789", "short")
+		paths := map[string]any{r.Pick("all", "all_others", "~^.*$", "~^cam[0-9]+$", "~^x(", "cam", "~"): pm}
+		if r.Chance(1, 3) {
+			paths[r.Pick("all", "all_others", "~^.*$")] = map[string]any{}
+		}
+		top["paths"] = paths
+	}
+	return top
+}
+
 func verifC10RenderSorted(r *verifutil.Rand, top map[string]any) []byte {
 	keys := make([]string, 0, len(top))
 	for k := range top {
@@ -490,8 +608,11 @@ func verifC10Gen(r *verifutil.Rand, i int, thorough bool) []string {
 		return []string{verifC10LoadOp([]byte(verifC10Hostile[i]), nil, nil, nil)}
 	}
 	switch c := r.Intn(100); {
-	case c < 52:
+	case c < 30:
 		top := verifC10GenConf(r, false)
+		return []string{verifC10LoadOp(verifC10RenderSorted(r, top), nil, nil, nil)}
+	case c < 52:
+		top := verifC10Scenario(r)
 		return []string{verifC10LoadOp(verifC10RenderSorted(r, top), nil, nil, nil)}
 	case c < 62:
 		top := verifC10GenConf(r, true)
